@@ -490,7 +490,44 @@ static Case gen_c11(Chooser& ch) {
   size_t reps = ch.chance(1, 2) ? 6 : (size_t)ch.range(6, 10);   // (>= 3 repetitions after the warm-up, so that repeated growth can be told from a single step)
   c.push_back(Op("rep").u("n", reps));
   // body: a workload shape + random history
-  unsigned shape = (unsigned)ch.pick(7);
+  unsigned shape = (unsigned)ch.pick(9);
+  if (shape == 8) {
+    // threads that leave segments behind in both places: D threads whose only block is aligned to 64/128 MiB (such a segment comes straight from the OS
+    // and is abandoned on the sub-process list), then A threads with ordinary blocks (arena segments, abandoned in the arena bitmaps); frees and collects in
+    // between decide who pops what from which list. Everything must be found again and given back at quiescence, in every repetition.
+    int D = (int)ch.range(1, 3), A = (int)ch.range(1, 3); std::vector<int> ds, as2;
+    for (int i = 0; i < D; i++) { int s = g.new_slot(); if (s < 0) break; ds.push_back(s); c.push_back(Op("talloc").u("s", (uint64_t)s).u("k", 1).u("n", ch.range(1, 100*KiB)).u("a", ch.chance(1, 2) ? 64*MiB : 128*MiB)); }
+    switch (ch.pick(4)) { case 0: break; case 1: c.push_back(Op("collect").u("force", 1)); break;
+      case 2: for (int s : ds) c.push_back(Op("free").u("s", (uint64_t)s)); c.push_back(Op("collect").u("force", 1)); break;
+      default: for (int s : ds) c.push_back(Op("free").u("s", (uint64_t)s)); c.push_back(Op("collect").u("force", 0)); { int s = g.new_slot(); if (s >= 0) { c.push_back(Op("alloc").u("s", (uint64_t)s).s("f", "malloc").u("n", 6*MiB).u("nt", 1)); c.push_back(Op("free").u("s", (uint64_t)s)); } } break; }
+    for (int i = 0; i < A; i++) { int k = (int)ch.range(1, 30); if (g.next_slot + k >= NSLOTS) break; int s0 = g.next_slot; g.next_slot += k; as2.push_back(s0); c.push_back(Op("talloc").u("s", (uint64_t)s0).u("k", (uint64_t)k).u("n", ch.range(16*KiB, 200*KiB))); 
+      if (ch.chance(1, 2)) c.push_back(Op("rfree").u("s", (uint64_t)s0).u("k", (uint64_t)k).u("step", 1).u("ph", 0)); }
+    if (ch.chance(1, 2)) c.push_back(Op("collect").u("force", ch.chance(1, 2)));
+    if (ch.chance(1, 3)) { Profile p2 = pf; p2.min_ops = 2; p2.max_ops = 10; p2.big_ok = false; g.pf = p2; Case body = g.history(); for (auto& op : body) c.push_back(op); }
+    c.push_back(Op("endrep"));
+    return c;
+  }
+  if (shape == 7) {
+    // an arena with more than 64 blocks (two bitmap fields): 66-72 sparsely touched huge blocks take one arena block each; they are freed in a few
+    // rounds with time passing in between, so that delayed arena purges expire and are run by a later free (not by the forced collect); by the end of
+    // the body everything is freed -- the last free into the arena is the one that finds expired purges -- and quiescence must leave nothing committed
+    Case c2; for (auto& op : c) { if (op.name == "opt" && (op.str("name") == "arena_reserve" || op.str("name") == "disallow_arena_alloc")) continue; if (op.name == "rep") c2.push_back(Op("opt").s("name", "arena_reserve").u("v", (uint64_t)4 * 1024 * 1024)); c2.push_back(op); } c = c2;
+    int k = (int)ch.range(66, 72); int s0 = g.next_slot; g.next_slot += k;
+    c.push_back(Op("fill").u("s", (uint64_t)s0).u("k", (uint64_t)k).s("f", "malloc").u("n", (size_t)ch.range(17*MiB, 20*MiB)).u("nt", 1));
+    static const std::vector<size_t> ticks = { 0, 5, 50, 150, 3000 };
+    int rounds = (int)ch.range(0, 3);
+    for (int r = 0; r < rounds; r++) { int a = (int)ch.range(0, (uint64_t)k - 1), len = (int)ch.range(1, (uint64_t)(k - a)), step = (int)ch.range(1, 3);
+      c.push_back(Op("rfree").u("s", (uint64_t)(s0 + a)).u("k", (uint64_t)len).u("step", (uint64_t)step).u("ph", 0));
+      size_t t = ch.of(ticks); if (t) c.push_back(Op("tick").u("ms", t)); if (ch.chance(1, 4)) c.push_back(Op("collect").u("force", 0)); }
+    int last = s0 + (int)ch.range(0, (uint64_t)k - 1);   // freed last, after the others and after some time
+    if (last > s0) c.push_back(Op("rfree").u("s", (uint64_t)s0).u("k", (uint64_t)(last - s0)).u("step", 1).u("ph", 0));
+    if (last < s0 + k - 1) c.push_back(Op("rfree").u("s", (uint64_t)(last + 1)).u("k", (uint64_t)(s0 + k - 1 - last)).u("step", 1).u("ph", 0));
+    size_t t = ch.of(ticks); if (t) c.push_back(Op("tick").u("ms", t));
+    c.push_back(Op("free").u("s", (uint64_t)last));
+    if (ch.chance(1, 3)) { Profile p2 = pf; p2.min_ops = 2; p2.max_ops = 10; p2.big_ok = false; g.pf = p2; Case body = g.history(); for (auto& op : body) c.push_back(op); }
+    c.push_back(Op("endrep"));
+    return c;
+  }
   auto big = [&](const char* f, size_t n, size_t a, int k) { for (int i = 0; i < k; i++) { int s = g.new_slot(); if (s < 0) return; Op op("alloc"); op.u("s", (uint64_t)s).s("f", f).u("n", n); if (a) op.u("a", a); op.u("nt", 1); g.out.push_back(op); g.note_alloc(s, 0, a ? a : 1, 0, false, 1); } };
   switch (shape) {
     case 0: break;                                                                                       // small / random only
